@@ -843,7 +843,7 @@ func (f *impFn) rangeStmt(v *ast.RangeStmt, rest []ast.Stmt, k *kont, c *ictx, i
 		ret:  func(vals string) string { return "(" + st + ", some " + parenImp(vals) + ")" },
 		fall: func() string { return name + hole + " rest_ " + strings.Join(lnames(S), " ") }}
 	ss, sg := f.snap()
-	f.nonNil = map[string]bool{} // guards do not survive an iteration boundary
+	f.loopGuards(S) // only guards on variables the loop does not assign survive an iteration boundary
 	body := f.seq(v.Body.List, nil, cc, "    ", nil, false)
 	if first != "" {
 		body = "    " + first + "\n" + body
@@ -1017,7 +1017,7 @@ func (f *impFn) forStmt(v *ast.ForStmt, rest []ast.Stmt, k *kont, c *ictx, ind s
 		ret: func(vals string) string { return "(" + st + ", some " + parenImp(vals) + ")" },
 		brk: func() string { return exit }}
 	ss, sg := f.snap()
-	f.nonNil = map[string]bool{}
+	f.loopGuards(S)
 	cond := "true"
 	if v.Cond != nil {
 		cs, ct := f.expr(v.Cond, tyBool, cc)
@@ -1106,4 +1106,19 @@ func (f *impFn) assignedAnywhere(n ast.Node) []string {
 		return true
 	})
 	return out
+}
+
+// inside a loop body only the nil-guards whose root variable the loop never assigns remain valid
+func (f *impFn) loopGuards(S []string) {
+	for g := range f.nonNil {
+		r := g
+		if i := strings.IndexAny(g, ".["); i >= 0 {
+			r = g[:i]
+		}
+		for _, s := range S {
+			if s == r {
+				delete(f.nonNil, g)
+			}
+		}
+	}
 }
